@@ -8,7 +8,7 @@ import Helm.Props.C20
 #print axioms Helm.Props.C20.delete_never_panics
 #print axioms Helm.Props.C20.index_load_never_panics
 #print axioms Helm.Props.C20.index_get_never_panics
-#print axioms Helm.Props.C20.counterexample_index_null
+#print axioms Helm.Props.C20.index_load_with_nulls_never_panics
 #print axioms Helm.Props.C20.import_values_welltyped_ok
 #print axioms Helm.Props.C20.counterexample_import_values
 #print axioms Helm.Props.C20.archive_name_total
